@@ -11,9 +11,11 @@ Definition all_digits (ds : bytes) : bool :=
 (* a C integer numeral: optional sign, 1*DIGIT, nothing else *)
 Definition numeral (s : bytes) : option Z :=
   match s with
-  | 45%N :: ds => if all_digits ds then Some (- dec_value ds) else None
-  | 43%N :: ds => if all_digits ds then Some (dec_value ds) else None
-  | _ => if all_digits s then Some (dec_value s) else None
+  | [] => None
+  | c :: ds =>
+      if (c =? 45)%N then (if all_digits ds then Some (- dec_value ds) else None)
+      else if (c =? 43)%N then (if all_digits ds then Some (dec_value ds) else None)
+      else if all_digits s then Some (dec_value s) else None
   end.
 (* the closed range a token lists: "N" or "A-B" split at the first '-', 16-bit, ordered *)
 Definition tok_range (t : bytes) : option (Z * Z) :=
@@ -154,4 +156,90 @@ Proof.
   destruct neg.
   - destruct (dec_value (y :: ys) >? two63); reflexivity.
   - destruct (dec_value (y :: ys) >? two63 - 1); reflexivity.
+Qed.
+
+Lemma dropN_span {A} (p : A -> bool) l : dropN (lenN (fst (span p l))) l = snd (span p l).
+Proof.
+  transitivity (dropN (lenN (fst (span p l))) (fst (span p l) ++ snd (span p l))); [now rewrite span_app|].
+  apply dropN_lenN_app.
+Qed.
+
+Lemma all_digits_span l :
+  all_digits l = match fst (span is_digit l), snd (span is_digit l) with
+                 | _ :: _, [] => true
+                 | _, _ => false
+                 end.
+Proof.
+  unfold all_digits. destruct l as [|c r]; [reflexivity|].
+  destruct (forallb is_digit (c :: r)) eqn:E.
+  - rewrite (span_all_true _ _ E). reflexivity.
+  - destruct (snd (span is_digit (c :: r))) eqn:Es.
+    + apply span_fst_eq_all in Es. congruence.
+    + destruct (fst (span is_digit (c :: r))); reflexivity.
+Qed.
+
+Lemma all_digits_whole l : all_digits l = true -> fst (span is_digit l) = l.
+Proof.
+  unfold all_digits. destruct l as [|c r]; [discriminate|]. intros H. now rewrite (span_all_true _ _ H).
+Qed.
+
+(* glibc's saturation *)
+Definition sat64 (v : Z) : Z := if v >? two63 - 1 then two63 - 1 else if v <? - two63 then - two63 else v.
+
+(* the digit part of xatoll, after the sign: n2 characters were skipped before l2 *)
+Lemma xatoll_tail (l2 : bytes) (n2 : N) (pre : bytes) :
+  lenN pre = n2 ->
+  let d := fst (span is_digit l2) in
+  (match d with
+   | [] => true
+   | _ => match dropN (n2 + lenN d) (pre ++ l2) with [] => false | _ :: _ => true end
+   end) = negb (all_digits l2).
+Proof.
+  intros Hpre d. rewrite all_digits_span. fold d.
+  destruct d as [|y ys] eqn:Ed; [reflexivity|].
+  assert (Hdrop : dropN (n2 + lenN (y :: ys)) (pre ++ l2) = snd (span is_digit l2)).
+  { rewrite <- Ed. unfold d. rewrite <- (dropN_span is_digit l2). subst n2.
+    clear. induction pre as [|x pre IH]; cbn [lenN app]; [now rewrite N.add_0_l|].
+    replace (N.succ (lenN pre) + lenN (fst (span is_digit l2)))%N with (N.succ (lenN pre + lenN (fst (span is_digit l2)))) by lia.
+    rewrite dropN_succ. exact IH. }
+  rewrite Hdrop. destruct (snd (span is_digit l2)); reflexivity.
+Qed.
+
+Lemma xatoll_clean s : clean s = true ->
+  xatoll s = match numeral s with Some v => Some (sat64 v) | None => None end.
+Proof.
+  intros Hcl. unfold xatoll. rewrite (strtoll10_clean s Hcl), (c_string_clean s Hcl).
+  destruct s as [|c r]; [reflexivity|]. unfold numeral.
+  destruct (c =? 45)%N eqn:E45; [|destruct (c =? 43)%N eqn:E43].
+  - cbv zeta. pose proof (xatoll_tail r 1%N [c] eq_refl) as Ht. cbv zeta in Ht. cbn [app] in Ht.
+    destruct (fst (span is_digit r)) as [|y ys] eqn:Ed.
+    + cbn [N.eqb]. destruct (all_digits r); [discriminate|reflexivity].
+    + destruct ((1 + lenN (y :: ys) =? 0)%N) eqn:En; [lia|].
+      destruct (dropN (1 + lenN (y :: ys)) (c :: r)) eqn:Edr.
+      * destruct (all_digits r) eqn:Ea; [|discriminate]. rewrite <- Ed, (all_digits_whole r Ea).
+        f_equal. unfold sat_neg, sat64.
+        assert (0 <= dec_value r) by (apply dec_value_nonneg; unfold all_digits in Ea; destruct r; [discriminate|exact Ea]).
+        destruct (dec_value r >? two63) eqn:E1; destruct (- dec_value r >? two63 - 1) eqn:E2;
+          destruct (- dec_value r <? - two63) eqn:E3; unfold two63 in *; lia.
+      * destruct (all_digits r); [discriminate|reflexivity].
+  - cbv zeta. pose proof (xatoll_tail r 1%N [c] eq_refl) as Ht. cbv zeta in Ht. cbn [app] in Ht.
+    destruct (fst (span is_digit r)) as [|y ys] eqn:Ed.
+    + cbn [N.eqb]. destruct (all_digits r); [discriminate|reflexivity].
+    + destruct ((1 + lenN (y :: ys) =? 0)%N) eqn:En; [lia|].
+      destruct (dropN (1 + lenN (y :: ys)) (c :: r)) eqn:Edr.
+      * destruct (all_digits r) eqn:Ea; [|discriminate]. rewrite <- Ed, (all_digits_whole r Ea).
+        f_equal. unfold sat_pos, sat64.
+        assert (0 <= dec_value r) by (apply dec_value_nonneg; unfold all_digits in Ea; destruct r; [discriminate|exact Ea]).
+        destruct (dec_value r >? two63 - 1) eqn:E1; destruct (dec_value r <? - two63) eqn:E3; unfold two63 in *; lia.
+      * destruct (all_digits r); [discriminate|reflexivity].
+  - cbv zeta. pose proof (xatoll_tail (c :: r) 0%N [] eq_refl) as Ht. cbv zeta in Ht. cbn [app] in Ht.
+    destruct (fst (span is_digit (c :: r))) as [|y ys] eqn:Ed.
+    + cbn [N.eqb]. destruct (all_digits (c :: r)); [discriminate|reflexivity].
+    + destruct ((0 + lenN (y :: ys) =? 0)%N) eqn:En; [cbn [lenN] in En; lia|].
+      destruct (dropN (0 + lenN (y :: ys)) (c :: r)) eqn:Edr.
+      * destruct (all_digits (c :: r)) eqn:Ea; [|discriminate]. rewrite <- Ed, (all_digits_whole _ Ea).
+        f_equal. unfold sat_pos, sat64.
+        assert (0 <= dec_value (c :: r)) by (apply dec_value_nonneg; exact Ea).
+        destruct (dec_value (c :: r) >? two63 - 1) eqn:E1; destruct (dec_value (c :: r) <? - two63) eqn:E3; unfold two63 in *; lia.
+      * destruct (all_digits (c :: r)); [discriminate|reflexivity].
 Qed.
